@@ -115,7 +115,17 @@ def datum_of(d):
 
 
 def build(sk):
+    if sk.get("ex") is not None:
+        # one of cfdm's own example fields, tagged so that it can be found again
+        f = cfdm.example_field(int(sk["ex"]))
+        f.set_property("fid", int(sk["id"]))
+        return f
     f = cfdm.Field(properties={"long_name": f"f{sk['id']}", "units": "K", "fid": int(sk["id"])})
+    if sk.get("gattr") is not None:
+        # a property that this field asks to be written as a netCDF global attribute, with a
+        # forced value: honoured only when every field of the file asks for the same value
+        f.set_property("project", f"p{sk['gattr']}")
+        f.nc_set_global_attribute("project", f"p{sk['gattr']}")
     if sk.get("nc") is not None:
         f.nc_set_variable(NCNAMES[sk["nc"] % len(NCNAMES)])
     sizes = sk["sizes"]
@@ -180,10 +190,19 @@ def build(sk):
 # fingerprint independent of cfdm's equals(): values, properties, structure
 # --------------------------------------------------------------------------
 def arr(d):
-    a = np.ma.asanyarray(d.array)
-    return [list(a.shape), str(a.dtype.kind),
-            [None if m else float(v) for v, m in zip(np.ma.getdata(a).ravel().tolist(),
-                                                     np.ma.getmaskarray(a).ravel().tolist())]]
+    raw = d.array
+    a = np.ma.asanyarray(raw)
+    out = [list(a.shape), str(a.dtype.kind),
+           [None if m else (float(v) if a.dtype.kind in "fiub" else str(v))
+            for v, m in zip(np.ma.getdata(a).ravel().tolist(), np.ma.getmaskarray(a).ravel().tolist())]]
+    # the recorded array is now overwritten in place: if it aliased the construct's own
+    # storage, every later write / comparison of that construct shows it
+    try:
+        if isinstance(raw, np.ndarray) and raw.flags.writeable and raw.dtype.kind in "fiu":
+            np.ma.getdata(raw)[...] = -12345
+    except Exception:
+        pass
+    return out
 
 
 def pr(c):
@@ -498,7 +517,8 @@ def run_case(case, scratch, ci):
             s["equal"] = [bool(h.equals(o)) and bool(o.equals(h)) for h in got]
             s["fps"] = [fingerprint(h) for h in got]
             s["faithful"] = (len(got) == 1 and s["equal"] == [True] and s["fps"][0] == s["fp_orig"])
-            _, _, s["nvars"] = raw_view(p, [sk])
+            if sk.get("ex") is None:
+                _, _, s["nvars"] = raw_view(p, [sk])
             s["view"] = [token_view(h) for h in got][:1]
         except Exception as e:
             s["exc"] = type(e).__name__ + ": " + str(e)[:300]
@@ -520,13 +540,14 @@ def run_case(case, scratch, ci):
             r["write_exc"] = type(e).__name__ + ": " + str(e)[:300]
             row["orders"].append(r)
             continue
-        try:
-            fview, refs, nvars = raw_view(p, [sks[k] for k in order])
-            r["file"] = fview
-            r["refs"] = refs
-            r["nvars"] = nvars
-        except Exception as e:
-            r["raw_exc"] = type(e).__name__ + ": " + str(e)[:300] + traceback.format_exc()[-400:]
+        if all(sk.get("ex") is None for sk in sks):
+            try:
+                fview, refs, nvars = raw_view(p, [sks[k] for k in order])
+                r["file"] = fview
+                r["refs"] = refs
+                r["nvars"] = nvars
+            except Exception as e:
+                r["raw_exc"] = type(e).__name__ + ": " + str(e)[:300] + traceback.format_exc()[-400:]
         try:
             fs, ds = read_all(p, anydom)
             r["nread"] = [len(fs), len(ds)]
